@@ -169,6 +169,12 @@ class Grid2D(GridObject):
         u_ind = np.any(selected_centroids, axis=0)
         v_ind = np.any(selected_centroids, axis=1)
 
+        if not inverse and np.any(u_ind):
+            # smallest covering sub-grid: keep the lines lying between selected ones
+            u_sel, v_sel = np.where(u_ind)[0], np.where(v_ind)[0]
+            u_ind[u_sel[0] : u_sel[-1] + 1] = True
+            v_ind[v_sel[0] : v_sel[-1] + 1] = True
+
         indices = np.kron(v_ind, u_ind).flatten()
 
         if not np.any(indices):
